@@ -147,3 +147,12 @@ Proof.
   pose proof (run_correct cls s env) as H.
   destruct (run cls s env); split; try discriminate; contradiction.
 Qed.
+
+(* the vector ast::parse returns is the reverse-Polish form of a tree: the
+   slicing of eval (split_last, split_at) never fails on it *)
+Lemma parse_wf_lemma st ns st' :
+  fin_ok st -> parse st = POk ns st' -> exists e, Repr e ns.
+Proof.
+  intros Hf H. pose proof (parse_equiv_lemma st Hf) as P. rewrite H in P.
+  destruct P as [e [loc [_ [_ HR]]]]. eauto.
+Qed.
